@@ -12,7 +12,7 @@ from .sys_fn_ipc import create_system_functions_ipc, create_system_var_ipc
 from .sys_fn_timer import create_system_functions_timer
 from .sys_var import *
 from .utils import ReadonlyDict
-from .compiler import compile_expr
+from .compiler import compile_expr, compiled_args
 
 
 def set_context_var(d, sym, v):
@@ -697,12 +697,12 @@ class KlongInterpreter():
                 if x.a.a not in ('::','∇'):
                     compiled = getattr(x, '_compiled', None)
                     if compiled is None:
-                        compiled = compile_expr(x, self) or False
+                        compiled = compile_expr(x, self, check_operands=False) or False
                         x._compiled = compiled
                     if compiled and compiled is not False:
                         fn, var_syms = compiled
                         try:
-                            args = [self._context[s] for s in var_syms]
+                            args = compiled_args(self, var_syms)
                             return fn(*args)
                         except Exception:
                             pass
@@ -717,12 +717,12 @@ class KlongInterpreter():
                 # Try compiled path for adverb chains (reduce/scan)
                 compiled = getattr(x, '_compiled', None)
                 if compiled is None:
-                    compiled = compile_expr(x, self) or False
+                    compiled = compile_expr(x, self, check_operands=False) or False
                     x._compiled = compiled
                 if compiled and compiled is not False:
                     fn, var_syms = compiled
                     try:
-                        args = [self._context[s] for s in var_syms]
+                        args = compiled_args(self, var_syms)
                         return fn(*args)
                     except Exception:
                         pass
@@ -759,12 +759,12 @@ class KlongInterpreter():
         if type(cached) is not list:
             compiled = self._compiled_cache.get(cache_key)
             if compiled is None:
-                compiled = compile_expr(cached, self)
+                compiled = compile_expr(cached, self, check_operands=False)
                 self._compiled_cache[cache_key] = compiled or False
             if compiled and compiled is not False:
                 fn, var_syms = compiled
                 try:
-                    args = [self._context[s] for s in var_syms]
+                    args = compiled_args(self, var_syms)
                     return fn(*args)
                 except Exception:
                     pass  # fall through to interpreter
